@@ -443,7 +443,7 @@ def _oracle_step(ctx, case, step, op, snap, others, res, err):
                     n_shared = len(set(o["maze_ids"]) & set(snap["maze_ids"]))
                     n_lost = sum(1 for m, f in zip(d.mazes, o["fps"]) if _fp(m) != f)
                     viol(f"in-place metadata collection on a result changed generation_meta of {n_lost} mazes of {who}, which is not its target"
-                         + (f": the target shares {n_shared} maze objects with it (custom_maze_filter returned the input's maze objects instead of copies)" if n_shared else ""),
+                         + (f": the target shares {n_shared} maze objects with it (a filter returned its input's maze objects instead of copies)" if n_shared else ""),
                          key=KNOWN_KEY_SHARE if n_shared else "unlisted")
                 else:
                     viol(f"generation_meta of mazes of {who} changed although no in-place collection ran")
